@@ -181,6 +181,9 @@ pub fn world(ch: &mut Chooser) -> World {
     let (site_label, template, is_target) = SITES[site];
     let name = if is_target && (name == "1" || name == "k" || name == "G" || name == "a_in") { "y" } else { name };
     let stmt = template.replace("{}", name);
+    // a statement directly before the use site (resolution state must not leak from one statement to the next)
+    let pre = ch.pick("pre", &["none", "enum-assignment", "int-assignment", "fb-call", "string-assignment"], 1);
+    let pre_s = ["", "lv := Low ;", "y := 2 ;", "inst ( a := y ) ;", "str := 'abc' ;"][pre];
     let undeclared = name == "zz" || (name == "k" && kdecl == 1) || (name == "G" && ext == 1);
     if undeclared {
         w.violated.insert("P0015");
@@ -223,7 +226,7 @@ pub fn world(ch: &mut Chooser) -> World {
         _ => {}
     }
     let nodecl = ch.pick("instdecl", &["declared", "not-declared"], 1) == 1;
-    if nodecl && (inv != 1 || uses_inst_site) {
+    if nodecl && (inv != 1 || uses_inst_site || pre == 3) {
         w.violated.insert("P0021");
     }
     if fbtype == "NoFb" && (inv != 1 || uses_inst_site) {
@@ -233,8 +236,8 @@ pub fn world(ch: &mut Chooser) -> World {
     let inst_decl = if nodecl { String::new() } else { format!("inst : {} ; ", fbtype) };
     let (hopen, hclose) = if host_kind == 0 { ("FUNCTION_BLOCK Host", "END_FUNCTION_BLOCK") } else { ("PROGRAM Host", "END_PROGRAM") };
     let host_words = format!(
-        "{} VAR_INPUT a_in : INT ; END_VAR VAR_OUTPUT q_out : INT ; END_VAR VAR {}x : {} ; y : INT ; lv : {}{} ; arr : Arr ; END_VAR {} {} {} {} q_out := y ; {}",
-        hopen, inst_decl, xtype, lv_type, lv_init_s, kdecl_s, ext_s, inv_s, stmt, hclose
+        "{} VAR_INPUT a_in : INT ; END_VAR VAR_OUTPUT q_out : INT ; END_VAR VAR {}x : {} ; y : INT ; lv : {}{} ; arr : Arr ; str : STRING ; END_VAR {} {} {} {} {} q_out := y ; {}",
+        hopen, inst_decl, xtype, lv_type, lv_init_s, kdecl_s, ext_s, inv_s, pre_s, stmt, hclose
     );
     let mut host = d("Host", if host_kind == 0 { "fb" } else { "program" }, &host_words);
     host.faulty = w.violated.iter().any(|c| matches!(*c, "P0014" | "P0022" | "P0016" | "P0017" | "P0018" | "P0015" | "P0006" | "P0007" | "P0008" | "P0009" | "P0021"));
